@@ -48,6 +48,8 @@ def run(chk, scratch):
         d, w = worlds[seed]
         out = os.path.join(d, "out_%s_%s_%s" % (st, dt, annotated))
         pr = ["--polya_requirement", "never"] if (seed + len(st) + len(dt)) % 2 == 0 else []
+        if ((seed + len(st) + len(dt)) // 2) % 2 == 0:
+            pr = pr + ["--report_canonical", "only_canonical"]       # the strictest reporting level: chains without any canonical site are dropped
         r = pipeline.run(d, out, data_type=dt, threads=1 + (seed + len(st)) % 2, annotated=annotated, home=out + "_home",
                          extra=["--model_construction_strategy", st, "--report_novel_unspliced", "true"] + pr)
         return job, out, r
